@@ -1,6 +1,6 @@
 (* C05 — Storage physics: level within [0, size], ends at end level, rates within rate x dt. *)
 From Coq Require Import QArith List String Bool.
-From EAO Require Import Num LP Mapping Grid Assets StorageProofs StorageBlocks Build.
+From EAO Require Import Num LP Mapping Grid Assets StorageProofs StorageBlocks StorageDur Build.
 Import ListNotations.
 Open Scope Q_scope.
 
@@ -78,6 +78,22 @@ Theorem C05_time_blocks_start_differs_from_end_refuted :
 Proof. exact blocks_start_ne_end_refuted. Qed.
 Print Assumptions C05_time_blocks_start_differs_from_end_refuted.
 
+(* Maximum holding duration (assets.py:513-548), for the problem the builder returns, any grid and step lengths: with start level 0
+   and no inflow (the other cases are known findings) and binary "non-empty" indicators, every window of steps  i .. i+k  whose
+   accumulated duration exceeds the maximum (md_js: the steps within the duration plus the first one beyond) contains a step at
+   which the physical level is not above zero - the level is never non-zero for longer than the duration. *)
+Theorem C05_holding_duration :
+  forall g rg p a md,
+  storage g rg p = Some a -> sp_no_simult p = false -> sp_max_dur p = Some md -> rg_T rg <> 0%nat ->
+  List.length (rg_dt rg) = rg_T rg -> sp_start p == 0 -> sp_inflow p == 0 ->
+  exists m, forall x,
+    Forall (row_ok x) (lp_rows (ap_lp a)) ->
+    (forall t, (t < rg_T rg)%nat -> nth (m + t) x 0 == 0 \/ nth (m + t) x 0 == 1) ->
+    forall i js, (i < rg_T rg)%nat -> md_js (rg_dt rg) md i = Some js ->
+      exists j, In j js /\ (i + j < rg_T rg)%nat /\ level p (rg_T rg) (rg_dt rg) x (i + j) <= 0.
+Proof. exact storage_holding_duration. Qed.
+Print Assumptions C05_holding_duration.
+
 (* no simultaneous charge and discharge when the mode variable is binary *)
 Theorem C05_no_simultaneous :
   forall name n cp ct I a x i, (i < n)%nat ->
@@ -118,4 +134,15 @@ Proof.
   - set (r := st_block_rows _ _ _ _). vm_compute in r. subst r. repeat constructor; vm_compute; intuition discriminate.
   - vm_compute. reflexivity.
   - vm_compute. reflexivity.
+Qed.
+(* holding duration 1 on steps of length 1: every window is two consecutive steps; three steps of length 1, 1/2, 1: the window of
+   the first step reaches the third *)
+Example C05_duration_nonvacuous :
+  md_js [1; 1; 1] 1 0 = Some [0; 1]%nat /\ md_js [1; 1; 1] 1 2 = None /\ md_js [1; (1#2); 1] (3#2) 0 = Some [0; 1; 2]%nat /\
+  (* charge 1, discharge 1, rest; indicators 1, 0, 0: all rows of the problem with holding duration 1 are satisfied *)
+  let p := Build_storage_p "s" ["n"]%string 4 2 2 0 0 0 0 0 1 0 None false (Some 1) in
+  Forall (row_ok [-1; 1; 0; 1; 0; 0]) (md_rows1 3 3 (st_rows p 3 [1; 1; 1]) ++ flat_map (md_win 3 [1; 1; 1] 1) (seq 0 3)).
+Proof.
+  split; [vm_compute; reflexivity|]. split; [vm_compute; reflexivity|]. split; [vm_compute; reflexivity|].
+  cbv zeta. set (r := _ ++ _). vm_compute in r. subst r. repeat constructor; vm_compute; intuition discriminate.
 Qed.
